@@ -70,10 +70,25 @@ def set_array_name_format(value):
     _array_name_format = value
 
 
-_any_dtype = object()
+class _Sentinel:
+    # These are compared by identity. Annotations hold them as class attributes, and
+    # e.g. cloudpickle serialises such dynamically-created classes attribute by
+    # attribute; pickling a sentinel as a reference to its module-level name means it
+    # comes back as the very same object (also through `copy.deepcopy`).
+    def __init__(self, name: str):
+        self._name = name
 
-_anonymous_dim = object()
-_anonymous_variadic_dim = object()
+    def __repr__(self):
+        return self._name
+
+    def __reduce__(self):
+        return self._name
+
+
+_any_dtype = _Sentinel("_any_dtype")
+
+_anonymous_dim = _Sentinel("_anonymous_dim")
+_anonymous_variadic_dim = _Sentinel("_anonymous_variadic_dim")
 
 
 class _DimType(enum.Enum):
